@@ -48,7 +48,7 @@ PROPS = {
     "C01": ["TS-1", "TS-2", "GATE-1", "GATE-4", "GATE-6", "GATE-7", "GATE-8", "GATE-10", "SYM-1", "SYM-2", "SYM-3"],
     "C02": ["TS-1", "TS-3", "TS-4", "GATE-1", "GATE-10", "EFF-2", "UNW-1", "PROV-1", "SYM-3", "TS-6", "TS-9"],
     "C03": ["GATE-5", "GATE-6", "GATE-8", "GATE-9", "GATE-10", "ITER-1", "EFF-4", "PROV-1", "TS-5", "SYM-1", "SYM-2", "SYM-3"],
-    "C04": ["TS-3", "TS-4", "TS-5", "SYM-4"],
+    "C04": ["TS-3", "TS-4", "TS-5", "SYM-4", "API-1"],
     "C05": ["TS-2", "TS-3", "TS-4", "TS-7", "TS-8", "TS-9", "GATE-5", "EFF-2", "API-1"],
     "C06": ["EFF-2", "EFF-3", "EFF-4", "TS-8", "TS-9", "PROV-1", "GATE-4", "GATE-6", "API-1"],
     "C07": ["FWD-1", "API-1", "TS-6", "TS-7", "TS-8", "TS-9", "GATE-3"],
@@ -59,11 +59,13 @@ PROPS = {
     "C12": ["KILL-1", "EFF-2", "TS-1", "TS-9", "SYM-3"],
     "C14": ["GATE-2", "GATE-3", "SYM-2", "SYM-4"],
     "C15": ["CG-1", "GATE-1", "GATE-9", "ITER-5"],
-    "C16": ["TS-7", "GATE-1", "EFF-2"],
+    "C16": ["TS-7", "TS-9", "GATE-1", "EFF-2"],
 }
 
 # API-1 keys relevant per property (API-1 covers many functions; C05 only cares about Weak clauses)
 API_FILTER = {
+    # an object whose value is taken by a handle-consuming API gives up its implicit weak (else the allocation leaks)
+    "C04": ("implicit-weak-kept",),
     "C05": ("upgrade", "Weak::", "downgrade"),
     # identity and count clauses: raw-pointer round trips name the same allocation, ptr_eq is pointer equality,
     # increment/decrement_strong_count move the count by exactly one, up/downgrade stay on the same object
